@@ -37,12 +37,12 @@ impl MemcacheBinaryConnection {
                             request.header.body_length,
                             self.buffer.len()
                         );
-                        let skip = (request.header.body_length) - (self.buffer.len() as u32);
-                        if skip >= self.buffer.len() as u32 {
-                            self.buffer.clear();
-                        } else {
-                            self.buffer = self.buffer.split_off(skip as usize);
-                        }
+                        // drop the part of the oversized body that is already buffered
+                        // (what follows it belongs to the next requests), skip the rest
+                        let body_length = request.header.body_length as usize;
+                        let buffered = cmp::min(self.buffer.len(), body_length);
+                        let _ = self.buffer.split_to(buffered);
+                        let skip = (body_length - buffered) as u32;
                         self.skip_bytes(skip).await?;
                         return Ok(Some(BinaryRequest::ItemTooLarge(request)));
                     }
